@@ -98,3 +98,26 @@ package objectcore
 
 //@ func (*FormatValidator).checkAttributes
 //@   loop 1 iteration [every_attribute_unique_and_without_zero_byte] !was && attrClean()
+
+// ---- C04: the continuation cursor is an index key: attribute, delimiter, value, [delimiter,]
+// object ID. Whatever the branch, the write position at which the item's ID is copied is the
+// last 32 bytes of the key (off for the string branches, off+33 for the integer branch, where
+// the 33-byte number is written first): the running offset accounts for every part written.
+// (Stated over the offset arithmetic; the byte-level statement "the key ends with the ID"
+// exceeded the solver budget - three chained quantified copies - and is left to the replay.)
+
+//@ fileprops C04
+
+//@ callrule c04_cursor_collaborators in CalculateCursor
+//@   callee (*object.SearchFilter).*, (object.SearchFilter).*, object.IsIntegerSearchOp, signed256.ParseDecimal, base58.Decode, hex.DecodedLen, uuid.Parse
+//@   pureeffect
+//@ callrule c04_hex_decode_fills_prefix in CalculateCursor
+//@   callee hex.Decode
+//@   assigns []uint8
+//@   ensures err == nil ==> res0 == len(a1) / 2
+
+//@ func CalculateCursor
+//@   mode int
+//@   opt abstract=copycontent
+//@   valid len(MetaAttributeDelimiter) == 1
+//@   ensures [id_position_is_the_last_32_bytes] err == nil && len(res0) > 32 ==> off == len(res0) - 32 || off + 33 == len(res0) - 32
